@@ -275,6 +275,9 @@ def _call(args):
 
 
 ABORT_AFTER = int(os.environ.get("VF_ABORT_AFTER", "400"))
+# wall-clock budget of one exploration (set from the tier by the CLI): a run that exceeds it is cut short;
+# it is then a verdict only if unlisted violations were already found, otherwise a harness error
+WALL_BUDGET = float(os.environ.get("VF_MAX_WALL", "0") or 0)
 
 
 def run_shards(fn, shards, seed=0, nproc=None, progress=None, pid=None):
@@ -304,8 +307,23 @@ def run_shards(fn, shards, seed=0, nproc=None, progress=None, pid=None):
         pool = ctx.Pool(min(nproc, len(shards)), initializer=_worker_init, initargs=(seed,))
         it = pool.imap_unordered(_call, [(fn, s) for s in shards], chunksize=1)
     done = 0
+    t_start = time.time()
     try:
-        for st, shard, res in it:
+        while True:
+            try:
+                if pool is None:
+                    st, shard, res = next(it)
+                else:
+                    st, shard, res = it.next(timeout=5)
+            except StopIteration:
+                break
+            except mp.TimeoutError:
+                if WALL_BUDGET and time.time() - t_start > WALL_BUDGET:
+                    total.aborted = True
+                    total.budget_exceeded = True
+                    total.c["shards_not_run_after_abort"] = len(shards) - done
+                    break
+                continue
             done += 1
             if st == "err":
                 errors.append((shard, res))
@@ -329,8 +347,14 @@ def run_shards(fn, shards, seed=0, nproc=None, progress=None, pid=None):
         if pool is not None:
             pool.terminate()
             pool.join()
-    if errors:
+    if errors and not unknown_keys:
         raise HarnessError("worker failure in shard %r:\n%s" % errors[0])
+    if errors:
+        # violations were found anyway: they stand; the worker failures are reported next to them
+        total.notes["%d shards died in the harness (first: %s)" % (len(errors), errors[0][1].strip().splitlines()[-1][:120])] += 1
+        total.aborted = True
+    if getattr(total, "budget_exceeded", False) and not unknown_keys:
+        raise HarnessError("wall-clock budget of %.0fs exceeded without a verdict (%d of %d shards done)" % (WALL_BUDGET, done, len(shards)))
     return total
 
 
@@ -419,8 +443,8 @@ def finish(pid, tier, seed, level, total, coverage, assumptions, t0, collect=Non
     cov = dict(coverage)
     if getattr(total, "aborted", False):
         cov["exhaustive"] = False
-        cov["cut_short"] = "stopped early after more than %d distinct unlisted failing inputs" % ABORT_AFTER
-        print("NOTE: exploration stopped early: more than %d distinct unlisted failing inputs" % ABORT_AFTER)
+        cov["cut_short"] = "stopped early (more than %d distinct unlisted failing inputs, wall-clock budget, or shards lost)" % ABORT_AFTER
+        print("NOTE: exploration stopped early: the verdict was already decided by unlisted failing inputs")
     cov.setdefault("samples", total.samples[:6])
     cov["failing_executions_listed_as_known"] = sum(known.values())
     cov["failing_executions_unlisted"] = len(unknown)
@@ -457,6 +481,49 @@ def finish(pid, tier, seed, level, total, coverage, assumptions, t0, collect=Non
         )
     )
     return status
+
+
+def run_on_hosts(pid, hosts, subtier, seed, total):
+    """Run the same check with the CONVERTER hosted on other interpreters (thorough tiers).
+
+    Each host runs `python -m vf.cli <pid> --tier <subtier> --collect <tmp>` with its evidence and
+    replays redirected; its failing executions (host field = that interpreter) and counters are
+    merged into `total`. A missing interpreter is reduced coverage, never a violation."""
+    import shutil
+    import subprocess
+    import tempfile
+
+    if os.environ.get("VF_HOSTRUN"):
+        return []
+    ran = []
+    for h in hosts:
+        interp = interpreter(h)
+        if h == HOST:
+            continue
+        if not interp:
+            total.notes["host %s is not installed: reduced coverage" % h] += 1
+            continue
+        tmp = tempfile.mkdtemp(prefix="vf-host-%s-" % h, dir="/var/tmp")
+        try:
+            env = dict(os.environ, PYTHONPATH=VERIF, PYTHONDONTWRITEBYTECODE="1", VF_HOSTRUN="1", VF_EVIDENCE_DIR=tmp,
+                       VF_REPLAY_DIR=os.path.join(tmp, "r"), VF_ABORT_AFTER=str(ABORT_AFTER), VERIF_SEED=str(seed), PYTHONPYCACHEPREFIX=os.path.join(tmp, "pyc"))
+            out = os.path.join(tmp, "collect.json")
+            p = subprocess.run([interp, "-m", "vf.cli", pid, "--tier", subtier, "--collect", out], env=env, capture_output=True, text=True, cwd=VERIF)
+            if p.returncode not in (0, 1) or not os.path.exists(out):
+                raise HarnessError("check %s under host %s failed (rc=%s): %s" % (pid, h, p.returncode, (p.stdout + p.stderr)[-600:]))
+            for f in json.load(open(out)):
+                total.fails.append(tuple(f[:5]) + (f[5] if len(f) > 5 else None,))
+            try:
+                ev = json.load(open(os.path.join(tmp, pid + ".json")))
+                for k, v in ev["coverage"].get("counters", {}).items():
+                    total.c["%s:%s" % (h, k)] += v
+                total.c["evaluations_on_other_hosts"] += ev["coverage"].get("evaluations", 0)
+            except Exception:
+                pass
+            ran.append(h)
+        finally:
+            shutil.rmtree(tmp, ignore_errors=True)
+    return ran
 
 
 def chunked(it, n):
